@@ -56,6 +56,38 @@ def _classify_guard(test: Term, D: Term) -> str | None:
     return None
 
 
+def _nonneg(t: Term, depth: int = 0) -> bool:
+    """The term is non-negative by construction (absolute values, norms, positive literals and their products / sums / maxima)."""
+    if depth > 8:
+        return False
+    if t[0] == "const":
+        return isinstance(t[1], (int, float)) and not isinstance(t[1], bool) and t[1] >= 0
+    if is_call_to(t, "abs", "numpy.abs", "numpy.absolute", "math.fabs", "numpy.linalg.norm", "numpy.square", "numpy.ptp"):
+        return True
+    if is_call_to(t, "numpy.max", "numpy.amax", "max", "numpy.sum", "sum", "numpy.mean", "numpy.min", "min", "float", "numpy.float64") and t[2]:
+        return all(_nonneg(a, depth + 1) for a in t[2])
+    if t[0] == "call" and t[1][0] == "attr" and t[1][2] in ("max", "sum", "mean", "min") and not t[2]:
+        return _nonneg(t[1][1], depth + 1)
+    if t[0] == "bin" and t[1] in ("*", "+", "/"):
+        return _nonneg(t[2], depth + 1) and _nonneg(t[3], depth + 1)
+    if t[0] == "bin" and t[1] == "**" and t[3][0] == "const" and isinstance(t[3][1], int) and t[3][1] % 2 == 0:
+        return True
+    return False
+
+
+def _tolerance_bound(test: Term, D: Term) -> Term | None:
+    """The bound B of a tolerance test ``abs(D) <= B`` / ``B >= abs(D)`` (None for isclose-style tests)."""
+    t = test
+    while t[0] == "un" and t[1] == "not":
+        t = t[2]
+    if t[0] == "cmp" and t[1] in ("<", "<=", ">", ">="):
+        l, r = t[2], t[3]
+        for side, other in ((l, r), (r, l)):
+            if is_call_to(side, "abs", "numpy.abs", "numpy.absolute", "math.fabs") and side[2] and (side[2][0] == D or has_subterm(side[2][0], D)):
+                return other
+    return None
+
+
 def rule_m1(prog: Program, col: Collector) -> None:
     col.rule("M1", "a division by a cancellation-derived value is guarded by a tolerance test, not by an exact-zero test", 2)
     NEC = ("for additive games with float values the surplus v(N) - sum v(i) is a rounding residue: an exact-zero guard does not fire and "
@@ -95,6 +127,23 @@ def rule_m1(prog: Program, col: Collector) -> None:
                 col.violation(ref.where(e.node), ref.short, "unguarded-division", f"division by {short(D, 50)}, which {why}, is not guarded at all", NEC)
             elif "tolerance" in guards:
                 col.ok(ref.where(e.node), ref.short, f"division by {short(D, 50)} ({why}) is guarded by a tolerance test")
+                for f in e.ctx:
+                    if f[0] == "if" and _classify_guard(f[1], D) == "tolerance":
+                        b = _tolerance_bound(f[1], D)
+                        if b is not None:
+                            col.check(_nonneg(b), ref.where(e.node), ref.short,
+                                      f"the tolerance {short(b, 60)} is non-negative by construction (built from absolute values / norms / positive literals)",
+                                      construct="tolerance-sign",
+                                      necessity="a tolerance scaled by a signed quantity (e.g. v(N), negative for the negated XOS/XS/OXS families) is negative: "
+                                                "the guard never fires and additive games are divided by their rounding residue again")
+                        else:
+                            for s2 in subterms(f[1]):
+                                if is_call_to(s2, *TOL_FUNCS):
+                                    kw = dict(s2[3])
+                                    for kname in ("atol", "abs_tol", "rtol", "rel_tol"):
+                                        if kname in kw:
+                                            col.check(_nonneg(kw[kname]), ref.where(e.node), ref.short, f"{kname}={short(kw[kname], 40)} is non-negative by construction",
+                                                      construct="tolerance-sign", necessity="a negative tolerance never matches")
             else:
                 col.violation(ref.where(e.node), ref.short, "exact-zero-guard",
                               f"division by {short(D, 50)}, which {why}, is guarded only by an exact-zero test", NEC)
